@@ -1,52 +1,94 @@
+#[cfg(feature = "c01")]
 pub mod c01;
+#[cfg(feature = "c02")]
 pub mod c02;
+#[cfg(feature = "c03")]
 pub mod c03;
+#[cfg(feature = "c04")]
 pub mod c04;
+#[cfg(feature = "c05")]
 pub mod c05;
+#[cfg(feature = "c08")]
 pub mod c08;
+#[cfg(feature = "c09")]
 pub mod c09;
+#[cfg(feature = "c10")]
 pub mod c10;
+#[cfg(feature = "c11")]
 pub mod c11;
+#[cfg(feature = "c12")]
 pub mod c12;
+#[cfg(feature = "c06")]
 pub mod c06;
+#[cfg(feature = "c07")]
 pub mod c07;
+#[cfg(feature = "c13")]
 pub mod c13;
+#[cfg(feature = "c14")]
 pub mod c14;
+#[cfg(feature = "c15")]
 pub mod c15;
+#[cfg(feature = "c16")]
 pub mod c16;
+#[cfg(feature = "c17")]
 pub mod c17;
+#[cfg(feature = "c18")]
 pub mod c18;
+#[cfg(feature = "c19")]
 pub mod c19;
+#[cfg(feature = "c20")]
 pub mod c20;
+#[cfg(feature = "all")]
 pub mod selftest;
 
 use crate::ctx::Ctx;
 
 pub fn dispatch(ctx: &mut Ctx) -> bool {
     match ctx.prop.as_str() {
+        #[cfg(feature = "all")]
         "selftest" => selftest::run(ctx),
+        #[cfg(feature = "c01")]
         "C01" => c01::run(ctx),
+        #[cfg(feature = "c02")]
         "C02" => c02::run(ctx),
+        #[cfg(feature = "c03")]
         "C03" => c03::run(ctx),
+        #[cfg(feature = "c04")]
         "C04" => c04::run(ctx),
+        #[cfg(feature = "c05")]
         "C05" => c05::run(ctx),
+        #[cfg(feature = "c08")]
         "C08" => c08::run(ctx),
+        #[cfg(feature = "c09")]
         "C09" => c09::run(ctx),
+        #[cfg(feature = "c10")]
         "C10" => c10::run(ctx),
+        #[cfg(feature = "c11")]
         "C11" => c11::run(ctx),
+        #[cfg(feature = "c12")]
         "C12" => c12::run(ctx),
+        #[cfg(feature = "c06")]
         "C06" => c06::run(ctx),
+        #[cfg(feature = "c07")]
         "C07" => c07::run(ctx),
+        #[cfg(feature = "c13")]
         "C13" => c13::run(ctx),
+        #[cfg(feature = "c14")]
         "C14" => {
             c14::run(ctx);
             c14::end_to_end(ctx);
         }
+        #[cfg(feature = "c15")]
         "C15" => c15::run(ctx),
+        #[cfg(feature = "c16")]
         "C16" => c16::run(ctx),
+        #[cfg(feature = "c17")]
         "C17" => c17::run(ctx),
+        #[cfg(feature = "c18")]
         "C18" => c18::run(ctx),
+        #[cfg(feature = "c19")]
         "C19" => c19::run(ctx),
+        #[cfg(feature = "c20")]
         "C20" => c20::run(ctx),
         _ => return false,
     }
